@@ -1126,17 +1126,32 @@ Theorem add_address_lazy_section_refuted :
 Proof. exists (fun k => (k <? 1)%nat), holder2_init. vm_compute. repeat split; discriminate. Qed.
 
 (* ---------------------------------------------------------------- BaseBuilder node creation *)
+Definition blist : Type := (list bnode * nat * list nat)%type.
 
-Definition blist : Type := (list (nat * list bnode) * nat * list nat)%type.
+Definition simple_node_of (op : bop) : option bnode :=
+  match op with
+  | BInst => Some NInst | BAlign => Some NAlign | BEmbed => Some NEmbed | BEmbedLabel li => Some (NEmbedLabel li) | BComment => Some NComment
+  | _ => None
+  end.
 
+(* oracle-free effect of a successful Builder operation on (node list, cursor, bound labels) *)
 Definition bld_spec (op : bop) (c : blist) : blist :=
-  let '(secs, cur, act) := c in
+  let '(nodes, cur, act) := c in
   match op with
   | BNewLabel => c
-  | BBind li => (append_to cur (NLabel li) secs, cur, li :: act)
-  | BSection sid => (if existsb (fun p => (fst p =? sid)%nat) secs then secs else secs ++ [(sid, [])], sid, act)
-  | BInst => (append_to cur NInst secs, cur, act)
+  | BBind li => (insert_at (S cur) (NLabel li) nodes, S cur, li :: act)
+  | BSection sid => if existsb (is_section_of sid) nodes then (nodes, section_end sid nodes, act) else (nodes ++ [NSection sid], length nodes, act)
+  | BCursor i => (nodes, (i mod length nodes)%nat, act)
+  | BConstPool li =>
+      (insert_at (S (S (S cur))) NEmbed (insert_at (S (S cur)) (NLabel li) (insert_at (S cur) NAlign nodes)), S (S (S cur)), li :: act)
+  | BInst => (insert_at (S cur) NInst nodes, S cur, act)
+  | BAlign => (insert_at (S cur) NAlign nodes, S cur, act)
+  | BEmbed => (insert_at (S cur) NEmbed nodes, S cur, act)
+  | BEmbedLabel li => (insert_at (S cur) (NEmbedLabel li) nodes, S cur, act)
+  | BComment => (insert_at (S cur) NComment nodes, S cur, act)
   end.
+
+Definition is_const_pool (op : bop) : bool := match op with BConstPool _ => true | _ => false end.
 
 Lemma nth_pad_to n l i : nth i (pad_to n l) false = nth i l false.
 Proof.
@@ -1166,22 +1181,26 @@ Definition same_nodes (l l' : list bool) : Prop := forall i, nth i l' false = nt
 Ltac split_ifs H :=
   repeat match type of H with
          | context [if ?c then _ else _] => destruct c eqn:?
-         | context [match ho_fixup_pool ?h with _ => _ end] => destruct (ho_fixup_pool h)
          end.
 
 Ltac fin_nodes :=
-  unfold same_nodes, bld_list, set_nth_true; cbn [b_secs b_cur b_active b_lnodes b_snodes];
+  unfold same_nodes, bld_list, set_nth_true, activate, add_node, label_active in *;
+  cbn [b_nodes b_cursor b_active b_lnodes b_snodes b_lcap b_scap bld_spec] in *;
   repeat split; auto; intros; try congruence; rewrite ?nth_pad_to; auto;
-  cbn [bld_spec b_secs b_cur b_active b_lnodes b_snodes] in *;
   repeat match goal with H : existsb _ _ = _ |- _ => rewrite H end; auto.
 
+Ltac three := split; [intros; try congruence; fin_nodes | split; [intros; try congruence; fin_nodes | intros; try congruence; fin_nodes]].
+
+(* Every Builder operation (embed_const_pool as repaired by C15-embed-const-pool-atomic), under every oracle: a step that does not report success
+   leaves the node list, the cursor and the bound labels untouched (kOutOfMemory: every label / section keeps its node); the
+   holder is untouched except for the orphan label of a failed new_label; a successful step has the effect bld_spec. *)
 Theorem builder_step_atomic op h b k r h' b' k' :
   builder_step ok op h b k = (r, h', b', k') ->
   (r <> Ok ->
      bld_list b' = bld_list b /\ h2_sects h' = h2_sects h /\
      (holder_content (h2_base h') = holder_content (h2_base h) \/
       (op = BNewLabel /\ holder_content (h2_base h') = (ho_labels (h2_base h) ++ [mklabel false []], ho_relocs (h2_base h), ho_unresolved (h2_base h))))) /\
-  (r = Oom -> same_nodes (b_lnodes b) (b_lnodes b') /\ same_nodes (b_snodes b) (b_snodes b')) /\
+  (r = Oom -> is_const_pool op = false -> same_nodes (b_lnodes b) (b_lnodes b') /\ same_nodes (b_snodes b) (b_snodes b')) /\
   (r = Ok ->
      bld_list b' = bld_spec op (bld_list b) /\ h2_sects h' = h2_sects h /\
      match op with
@@ -1189,7 +1208,7 @@ Theorem builder_step_atomic op h b k r h' b' k' :
      | _ => h' = h
      end).
 Proof.
-  destruct op as [|li|sid|]; cbn [builder_step]; intros E.
+  unfold builder_step. destruct op as [|li|sid| | | |li| |i|li]; cbn [builder_step_gen is_const_pool]; intros E.
   - unfold b_new_label in E.
     destruct (new_label ok (h2_base h) k) as [[r1 base1] k1] eqn:NL.
     destruct (new_label_refines ok (h2_base h) k r1 base1 k1 NL) as [[-> C] | [-> C]].
@@ -1197,24 +1216,262 @@ Proof.
       pose proof (reserve_additional_cases 8 (bools_vec (b_lnodes b) (b_lcap b)) (Z.of_nat grow_by) k1) as RC.
       destruct (vec_reserve_additional ok 8 (bools_vec (b_lnodes b) (b_lcap b)) (Z.of_nat grow_by) k1) as [[r2 v2] k2].
       destruct RC as [[-> _] | [-> _]].
-      * unfold request in E. destruct (ok k2); inversion E; subst; clear E; cbn [h2_base h2_sects];
-          (split; [intros; try congruence; fin_nodes | split; [intros; try congruence; fin_nodes | intros; try congruence; fin_nodes]]).
-      * inversion E; subst; clear E. cbn [h2_base h2_sects]. split; [intros; fin_nodes | split; [intros; fin_nodes | congruence]].
-    + inversion E; subst; clear E. cbn [h2_base h2_sects]. split; [intros; fin_nodes | split; [intros; fin_nodes | congruence]].
+      * unfold request in E. destruct (ok k2); inversion E; subst; clear E; cbn [h2_base h2_sects]; three.
+      * inversion E; subst; clear E. cbn [h2_base h2_sects]. three.
+    + inversion E; subst; clear E. cbn [h2_base h2_sects]. three.
   - destruct (b_bind ok li h b k) as [[r1 b1] k1] eqn:BB. inversion E; subst; clear E.
-    unfold b_bind, vec_reserve_grow, vec_reserve_bytes, request in BB.
-    split_ifs BB; inversion BB; subst; clear BB;
-      (split; [intros; try congruence; fin_nodes | split; [intros; try congruence; fin_nodes | intros; try congruence; fin_nodes]]).
+    unfold b_bind, b_label_node, vec_reserve_grow, vec_reserve_bytes, request in BB.
+    split_ifs BB; inversion BB; subst; clear BB; three.
   - destruct (b_section ok sid h b k) as [[r1 b1] k1] eqn:BB. inversion E; subst; clear E.
     unfold b_section, vec_reserve_grow, vec_reserve_bytes, request in BB.
-    split_ifs BB; inversion BB; subst; clear BB;
-      (split; [intros; try congruence; fin_nodes | split; [intros; try congruence; fin_nodes | intros; try congruence; fin_nodes]]).
-  - destruct (b_inst ok b k) as [[r1 b1] k1] eqn:BI. inversion E; subst; clear E.
-    unfold b_inst, request in BI. destruct (ok k); inversion BI; subst;
-      (split; [intros; try congruence; fin_nodes | split; [intros; try congruence; fin_nodes | intros; try congruence; fin_nodes]]).
+    split_ifs BB; inversion BB; subst; clear BB; three.
+  - destruct (b_simple_node ok 1 NInst b k) as [[r1 b1] k1] eqn:BI. inversion E; subst; clear E.
+    cbn [b_simple_node] in BI. unfold request in BI. split_ifs BI; inversion BI; subst; three.
+  - destruct (b_simple_node ok 1 NAlign b k) as [[r1 b1] k1] eqn:BI. inversion E; subst; clear E.
+    cbn [b_simple_node] in BI. unfold request in BI. split_ifs BI; inversion BI; subst; three.
+  - destruct (b_simple_node ok 1 NEmbed b k) as [[r1 b1] k1] eqn:BI. inversion E; subst; clear E.
+    cbn [b_simple_node] in BI. unfold request in BI. split_ifs BI; inversion BI; subst; three.
+  - destruct (b_simple_node ok 1 (NEmbedLabel li) b k) as [[r1 b1] k1] eqn:BI. inversion E; subst; clear E.
+    cbn [b_simple_node] in BI. unfold request in BI. split_ifs BI; inversion BI; subst; three.
+  - destruct (b_simple_node ok 2 NComment b k) as [[r1 b1] k1] eqn:BI. inversion E; subst; clear E.
+    cbn [b_simple_node] in BI. unfold request in BI. split_ifs BI; inversion BI; subst; three.
+  - inversion E; subst; clear E. three.
+  - destruct (b_const_pool ok true li h b k) as [[r1 b1] k1] eqn:BB. inversion E; subst; clear E.
+    unfold b_const_pool, b_label_node, vec_reserve_grow, vec_reserve_bytes, request in BB.
+    split_ifs BB; inversion BB; subst; clear BB; three.
 Qed.
 
 End BuilderProofs.
+
+(* embed_const_pool before the repair linked the align node and bound the label before allocating the data node: when that
+   allocation failed both stayed in the list *)
+Theorem const_pool_partial_refuted :
+  exists ok h b, let '(r, _, b', _) := builder_step_gen ok false (BConstPool 0) h b 0 in r = Oom /\ bld_list b' <> bld_list b.
+Proof.
+  exists (fun k => (k <? 3)%nat), (mkh2 (mkholder [mklabel false []] 4 [] 0 0 0) sects_init), bld_init. vm_compute. split; [reflexivity | discriminate].
+Qed.
+
+(* ---------------------------------------------------------------- VirtMem views and JitAllocator blocks *)
+Local Close Scope Z_scope.
+
+(* ---- register allocator home slots (nat scope as well) ---- *)
+
+Section RaProofs.
+Variable ok : nat -> bool.
+
+(* a register has a home slot iff it owns exactly one entry of the slot list *)
+Lemma NoDup_snoc {A} (l : list A) x : NoDup l -> ~ In x l -> NoDup (l ++ [x]).
+Proof.
+  intros ND NI. induction ND as [|a t Ha ND IH]; cbn; [constructor; auto; constructor|].
+  constructor.
+  - intros H. apply in_app_or in H. destruct H as [H|[H|[]]]; [auto | subst; apply NI; left; auto].
+  - apply IH. intros H. apply NI. right; auto.
+Qed.
+
+Definition ra_inv (s : rastack) : Prop :=
+  NoDup (ra_slots s) /\ (forall w, has_home s w = true <-> In w (ra_slots s)) /\ (forall w, In w (ra_slots s) -> w < length (ra_home s)).
+
+Lemma ra_new_slot_spec w s k r s' k' :
+  ra_inv s -> has_home s w = false -> w < length (ra_home s) ->
+  ra_new_slot ok w s k = (r, s', k') ->
+  ra_inv s' /\ ra_refs s' = ra_refs s /\ length (ra_home s') = length (ra_home s) /\
+  ((r = Ok /\ ra_slots s' = ra_slots s ++ [w] /\ has_home s' w = true) \/
+   (r = Oom /\ ra_slots s' = ra_slots s /\ ra_home s' = ra_home s)).
+Proof.
+  intros [ND [HM BD]] HF WL E. unfold ra_new_slot in E.
+  pose proof (reserve_one_cases ok 8 (mkvec (map Z.of_nat (ra_slots s)) (ra_cap s)) k) as C.
+  destruct (vec_reserve_one ok 8 (mkvec (map Z.of_nat (ra_slots s)) (ra_cap s)) k) as [[r1 v] k1].
+  destruct C as [[-> _] | [-> _]].
+  - unfold request in E. destruct (ok k1); inversion E; subst; clear E; cbn [ra_slots ra_home ra_refs ra_cap].
+    + assert (NI : ~ In w (ra_slots s)) by (intros X; apply HM in X; congruence).
+      split; [|split; [auto|split; [apply upd_nth_length|left; repeat split; auto]]].
+      * split; [|split].
+        -- apply NoDup_snoc; auto.
+        -- intros x. unfold has_home. cbn [ra_home ra_slots]. rewrite in_app_iff. destruct (Nat.eq_dec w x) as [<-|NE].
+           ++ rewrite nth_upd_nth_same by auto. split; auto. intros _. right. left. auto.
+           ++ rewrite nth_upd_nth_other by auto. fold (has_home s x). rewrite HM. split; [auto|]. intros [H|[H|[]]]; [auto|congruence].
+        -- intros x Hx. cbn [ra_home ra_slots] in *. rewrite upd_nth_length. apply in_app_or in Hx. destruct Hx as [Hx|[<-|[]]]; auto.
+      * unfold has_home. cbn [ra_home]. rewrite nth_upd_nth_same by auto. reflexivity.
+    + split; [repeat split; auto; apply HM|]. repeat split; auto.
+  - inversion E; subst. split; [repeat split; auto; apply HM|]. repeat split; auto.
+Qed.
+
+(* Every step under every oracle: the invariant is kept (each register owns at most one slot, "has a home" = "owns a slot"); a
+   tested creation (RGet) that fails leaves slots and homes untouched, one that succeeds leaves the register with a home;
+   work_reg_as_mem never reports anything and may leave the register WITHOUT a home - which is why the rewrite must test. *)
+Theorem ra_step_spec op s k r s' k' :
+  ra_inv s -> (match op with RGet w | RAsMem w => w < length (ra_home s) end) ->
+  ra_step ok op s k = (r, s', k') ->
+  ra_inv s' /\ length (ra_home s') = length (ra_home s) /\
+  match op with
+  | RGet w => ra_refs s' = ra_refs s /\
+              ((r = Ok /\ has_home s' w = true) \/ (r = Oom /\ ra_slots s' = ra_slots s /\ ra_home s' = ra_home s))
+  | RAsMem w => r = Ok /\ ra_refs s' = w :: ra_refs s
+  end.
+Proof.
+  intros I WL E. destruct op as [w|w]; cbn [ra_step] in E.
+  - destruct (has_home s w) eqn:H.
+    + inversion E; subst. repeat split; try apply I; auto.
+    + destruct (ra_new_slot_spec w s k r s' k' I H WL E) as [I' [RF [LN [[-> [SL HH]] | [-> [SL HH]]]]]]; repeat split; try apply I'; auto.
+  - destruct (has_home s w) eqn:H.
+    + inversion E; subst. cbn [ra_home ra_refs]. repeat split; try apply I; auto.
+    + destruct (ra_new_slot ok w s k) as [[r1 s1] k1] eqn:NS.
+      destruct (ra_new_slot_spec w s k r1 s1 k1 I H WL NS) as [[I1 [I2 I3]] [RF [LN _]]].
+      inversion E; subst; clear E. cbn [ra_home ra_refs ra_slots]. rewrite RF. repeat split; auto; apply I2.
+Qed.
+
+(* the rewrite of f186c27 succeeds only when every referenced register has its home: no null slot is ever dereferenced *)
+Theorem ra_rewrite_safe s : ra_rewrite s = Ok -> forall w, In w (ra_refs s) -> has_home s w = true.
+Proof.
+  unfold ra_rewrite. intros E w Hw. destruct (forallb (has_home s) (ra_refs s)) eqn:F; [|discriminate].
+  rewrite forallb_forall in F. auto.
+Qed.
+
+End RaProofs.
+
+(* without the test (the code before f186c27): two failed creations leave a referenced register without a home *)
+Theorem ra_as_mem_unchecked_refuted :
+  exists ok ops, let '(_, s, _) := ra_run ok ops (ras_init 2) 0 in exists w, In w (ra_refs s) /\ has_home s w = false.
+Proof. exists (fun _ => false), [RAsMem 1; RAsMem 1]. vm_compute. exists 1. split; [left|]; reflexivity. Qed.
+
+
+Section VmProofs.
+Variable okv : nat -> bool.
+Variable okh : nat -> bool.
+
+Lemma remove_ids_app_fresh ids l : (forall x, In x ids -> ~ In x l) -> remove_ids ids (l ++ ids) = l.
+Proof.
+  intros F. unfold remove_ids. rewrite filter_app.
+  assert (A : filter (fun x => negb (existsb (Nat.eqb x) ids)) l = l).
+  { induction l as [|a t IH]; cbn; auto.
+    assert (E : existsb (Nat.eqb a) ids = false).
+    { destruct (existsb (Nat.eqb a) ids) eqn:X; auto. apply existsb_exists in X. destruct X as [y [Hy Ey]].
+      apply Nat.eqb_eq in Ey. subst. exfalso. apply (F y Hy). left; auto. }
+    rewrite E. cbn. f_equal. apply IH. intros x Hx Hin. apply (F x Hx). right; auto. }
+  assert (B : filter (fun x => negb (existsb (Nat.eqb x) ids)) ids = []).
+  { clear A F. assert (G : forall m, (forall x, In x m -> In x ids) -> filter (fun x => negb (existsb (Nat.eqb x) ids)) m = []).
+    { induction m as [|a t IH]; intros H; cbn; auto.
+      assert (E : existsb (Nat.eqb a) ids = true) by (apply existsb_exists; exists a; split; [apply H; left; auto | apply Nat.eqb_refl]).
+      rewrite E. cbn. apply IH. intros x Hx. apply H. right; auto. }
+    apply G. auto. }
+  rewrite A, B, app_nil_r. reflexivity.
+Qed.
+
+(* ids below vs_next are the only ones in use: fresh ids never collide *)
+Definition vms_inv (s : vms) : Prop := forall x, In x (vs_views s) -> x < vs_next s.
+
+Lemma vm_map_spec s kv a s' k' :
+  vms_inv s -> vm_map okv s kv = (a, s', k') ->
+  k' = S kv /\ vs_heap s' = vs_heap s /\ vs_handles s' = vs_handles s /\ vms_inv s' /\ vs_next s <= vs_next s' /\
+  match a with
+  | Some i => i = vs_next s /\ vs_views s' = vs_views s ++ [i] /\ vs_next s' = S i
+  | None => s' = s
+  end.
+Proof.
+  intros I E. unfold vm_map in E. destruct (okv kv); inversion E; subst; cbn; repeat split; auto; try lia.
+  intros x Hx. cbn in Hx |- *. apply in_app_or in Hx. destruct Hx as [Hx|[<-|[]]]; [apply I in Hx; lia | lia].
+Qed.
+
+Lemma vm_dual_spec s kv a s' k' :
+  vms_inv s -> vm_dual okv s kv = (a, s', k') ->
+  vs_heap s' = vs_heap s /\ vs_handles s' = vs_handles s /\ vms_inv s' /\
+  match a with
+  | Some ids => vs_views s' = vs_views s ++ ids /\ length ids = 2 /\ (forall x, In x ids -> ~ In x (vs_views s))
+  | None => vs_views s' = vs_views s
+  end.
+Proof.
+  intros I E. unfold vm_dual in E.
+  destruct (vm_map okv s kv) as [[a1 s1] k1] eqn:M1.
+  destruct (vm_map_spec s kv a1 s1 k1 I M1) as [_ [H1 [HH1 [I1 [N1 P1]]]]].
+  destruct a1 as [ia|]; [|inversion E; subst; repeat split; auto; congruence].
+  destruct P1 as [-> [V1 NX1]].
+  destruct (vm_map okv s1 k1) as [[a2 s2] k2] eqn:M2.
+  destruct (vm_map_spec s1 k1 a2 s2 k2 I1 M2) as [_ [H2 [HH2 [I2 [N2 P2]]]]].
+  destruct a2 as [ib|].
+  - destruct P2 as [-> [V2 NX2]]. inversion E; subst. repeat split; try congruence; auto.
+    + rewrite V2, V1, <- app_assoc. reflexivity.
+    + intros x [<-|[<-|[]]] Hin; apply I in Hin; lia.
+  - subst s2. inversion E; subst; clear E. cbn [vs_heap vs_handles vs_views vs_next]. repeat split; auto.
+    + intros x Hx. unfold remove_ids in Hx. apply filter_In in Hx. destruct Hx as [Hx _]. apply I1. auto.
+    + rewrite V1. apply remove_ids_app_fresh. intros x [<-|[]] Hin. apply I in Hin. lia.
+Qed.
+
+(* Every operation under every pair of oracles: one that does not report success leaves the set of live mappings and the
+   number of live block records exactly as they were (nothing leaks, nothing is lost); a successful allocation adds exactly
+   its own fresh views. *)
+Theorem vm_step_no_leak op s kv kh r s' kv' kh' :
+  vms_inv s -> vm_step okv okh op s kv kh = (r, s', kv', kh') ->
+  vms_inv s' /\
+  (r <> Ok -> vs_views s' = vs_views s /\ vs_heap s' = vs_heap s) /\
+  (r = Ok -> match op with
+             | VMap => exists i, vs_views s' = vs_views s ++ [i] /\ vs_heap s' = vs_heap s
+             | VDual => exists ids, vs_views s' = vs_views s ++ ids /\ length ids = 2 /\ vs_heap s' = vs_heap s
+             | VBlock dual => exists ids, vs_views s' = vs_views s ++ ids /\ length ids = (if dual then 2 else 1) /\ vs_heap s' = S (vs_heap s)
+             | VRel i => exists ids, nth i (vs_handles s) None = Some ids /\ vs_views s' = remove_ids ids (vs_views s) /\ vs_heap s' = vs_heap s
+             | VDel i => exists ids, nth i (vs_handles s) None = Some ids /\ vs_views s' = remove_ids ids (vs_views s) /\ vs_heap s' = pred (vs_heap s)
+             end).
+Proof.
+  intros I E. destruct op as [| |i|dual|i]; cbn [vm_step] in E.
+  - destruct (vm_map okv s kv) as [[a s1] k1] eqn:M. destruct (vm_map_spec s kv a s1 k1 I M) as [_ [H1 [HH1 [I1 [N1 P1]]]]].
+    destruct a as [i|]; inversion E; subst; clear E; cbn [push_handle vs_views vs_heap].
+    + destruct P1 as [-> [V1 _]]. split; [exact I1|]. split; [congruence|]. intros _. eauto.
+    + split; [exact I|]. split; [auto|congruence].
+  - destruct (vm_dual okv s kv) as [[a s1] k1] eqn:M. destruct (vm_dual_spec s kv a s1 k1 I M) as [H1 [HH1 [I1 P1]]].
+    destruct a as [ids|]; inversion E; subst; clear E; cbn [push_handle vs_views vs_heap].
+    + destruct P1 as [V1 [L1 _]]. split; [exact I1|]. split; [congruence|]. intros _. eauto.
+    + split; [exact I1|]. split; [auto|congruence].
+  - destruct (nth i (vs_handles s) None) as [ids|] eqn:H; inversion E; subst; clear E; cbn [vs_views vs_heap].
+    + split; [|split; [congruence|intros _; eauto]].
+      intros x Hx. cbn in Hx. unfold remove_ids in Hx. apply filter_In in Hx. destruct Hx as [Hx _]. apply I in Hx. exact Hx.
+    + split; [exact I|]. split; [auto|congruence].
+  - assert (PRE : exists a s1 k1,
+              (if dual then vm_dual okv s kv else (let '(x, s', k') := vm_map okv s kv in (match x with Some i => Some [i] | None => None end, s', k'))) = (a, s1, k1) /\
+              vs_heap s1 = vs_heap s /\ vms_inv s1 /\
+              match a with
+              | Some ids => vs_views s1 = vs_views s ++ ids /\ length ids = (if dual then 2 else 1) /\ (forall x, In x ids -> ~ In x (vs_views s))
+              | None => vs_views s1 = vs_views s
+              end).
+    { destruct dual.
+      - destruct (vm_dual okv s kv) as [[a s1] k1] eqn:M. destruct (vm_dual_spec s kv a s1 k1 I M) as [H1 [HH1 [I1 P1]]].
+        exists a, s1, k1. repeat split; auto.
+      - destruct (vm_map okv s kv) as [[a s1] k1] eqn:M. destruct (vm_map_spec s kv a s1 k1 I M) as [_ [H1 [HH1 [I1 [N1 P1]]]]].
+        destruct a as [i|].
+        + destruct P1 as [-> [V1 _]]. exists (Some [vs_next s]), s1, k1. repeat split; auto.
+          intros x [<-|[]] Hin. apply I in Hin. lia.
+        + subst s1. exists None, s, k1. repeat split; auto. }
+    destruct PRE as [a [s1 [k1 [EQ [H1 [I1 P1]]]]]]. rewrite EQ in E.
+    destruct a as [ids|].
+    + destruct P1 as [V1 [L1 F1]]. destruct (okh kh); inversion E; subst; clear E; cbn [push_handle vs_views vs_heap vs_next].
+      * split; [exact I1|]. split; [congruence|]. intros _. exists ids. repeat split; auto; congruence.
+      * split; [|split; [|congruence]].
+        -- intros x Hx. cbn in Hx. unfold remove_ids in Hx. apply filter_In in Hx. destruct Hx as [Hx _]. apply I1. exact Hx.
+        -- intros _. rewrite V1. split; [apply remove_ids_app_fresh; auto | auto].
+    + inversion E; subst; clear E. cbn [push_handle vs_views vs_heap]. split; [exact I1|]. split; [auto|congruence].
+  - destruct (nth i (vs_handles s) None) as [ids|] eqn:H; inversion E; subst; clear E; cbn [vs_views vs_heap].
+    + split; [|split; [congruence|intros _; eauto]].
+      intros x Hx. cbn in Hx. unfold remove_ids in Hx. apply filter_In in Hx. destruct Hx as [Hx _]. apply I in Hx. exact Hx.
+    + split; [exact I|]. split; [auto|congruence].
+Qed.
+
+Lemma vms_init_inv : vms_inv vms_init.
+Proof. intros x []. Qed.
+
+End VmProofs.
+
+(* the seeded change C15-3 in model form: unmapping the wrong (not yet mapped) view leaks the first one *)
+Definition vm_dual_leaky (okv : nat -> bool) (s : vms) (kv : nat) : option (list nat) * vms * nat :=
+  let '(a, s1, k1) := vm_map okv s kv in
+  match a with
+  | None => (None, s1, k1)
+  | Some ia => let '(b, s2, k2) := vm_map okv s1 k1 in
+               match b with Some ib => (Some [ia; ib], s2, k2) | None => (None, s2, k2) end
+  end.
+
+Theorem vm_dual_leaky_refuted :
+  exists okv s, let '(a, s', _) := vm_dual_leaky okv s 0 in a = None /\ vs_views s' <> vs_views s.
+Proof. exists (fun k => (k <? 1)%nat), vms_init. vm_compute. split; [reflexivity | discriminate]. Qed.
+
+Local Open Scope Z_scope.
 
 Lemma primes_pos_of_forallb l : forallb (fun p => 0 <? p) l = true -> Forall (fun p => 0 < p) l.
 Proof.
